@@ -286,6 +286,19 @@ def run_conv(c, rec):
             got = np.asarray(Fi.samples[..., i], dtype=float)
             require(got.shape == want.shape and close(got, want, 1e-12),
                     "funvals of an integer-typed sample array are not the function values of those numbers (truncated?)", i=i, got=got, want=want)
+    if has_fun2par(spec) and spec["kind"] != "mapped":
+        # function-value samples built directly from an integer-typed array: parameters are fun2par of those numbers
+        Fint = np.round(2 * np.asarray(Fs.samples, dtype=float)).astype(int) if Fs.samples is not None and hasattr(Fs.samples, "shape") else None
+        if Fint is not None:
+            Sfi = cuqi.samples.Samples(Fint.copy(), geometry=G, is_par=False, is_vec=Fs.is_vec)
+            refused_p, Pfi = refuses(lambda: Sfi.parameters)
+            if not refused_p:
+                for i in range(N):
+                    r2, want = refuses(lambda: np.asarray(G.fun2par(Fint[..., i].astype(float)), dtype=float))
+                    if r2 or not np.all(np.isfinite(want)):
+                        break
+                    require(close(np.asarray(Pfi.samples[:, i], dtype=float), want, 1e-12),
+                            "parameters of integer-typed function-value samples are not fun2par of those numbers (truncated?)", i=i)
     if has_fun2par(spec):
         for src in ([Fs] if refused else [Fs, Vs]):
             Pb = must(lambda: src.parameters, "Samples.parameters")
